@@ -253,6 +253,14 @@ func (w *AuthWorld) RunAuthCell(n int, c ACell, r *rand.Rand) Line {
 	if c.Accept == "json" {
 		q.Lines = append(q.Lines, [2]string{"Accept", "application/json"})
 	}
+	// what the client (or the load balancer in front) claims about the transport: sso-auth's header set is owed
+	// on every response whatever it says
+	if r.Intn(2) == 0 {
+		q.Lines = append(q.Lines, [2]string{"X-Forwarded-Proto", pick(r, "http", "https", "HTTP", "ws", "http, https", "junk", "")})
+		if r.Intn(3) == 0 {
+			q.Lines = append(q.Lines, [2]string{"Forwarded", "proto=http;host=evil.test"}, [2]string{"X-Forwarded-Host", "evil.test"})
+		}
+	}
 	if len(cookies) > 0 {
 		q.Lines = append(q.Lines, [2]string{"Cookie", strings.Join(cookies, "; ")})
 	}
